@@ -434,7 +434,7 @@ def build(x):
                         lemma_slots(self.size as int, sl);
                         assert(self.ws@ =~= upd.ws@.skip(1));
                         assert(upd.slot_ok(0));
-                        assert(c2.len() == self.size);
+                        assert(c2.len() == self.size);   // #obl:process.fires_only_a_full_window
                         if m > 1 {
                             assert(upd.slot_ok(1));
                             assert(1 * sl == sl) by (nonlinear_arith);
